@@ -426,11 +426,11 @@ func runReal(c Cell) mon.Result {
 	if len(ob.OtherSrv) > 0 {
 		return viol(c, "c14/"+c.Transport+"/wrong-port", ob, "the server on port %d (not the configured port %d) saw a connection", other.Port(), target.Port())
 	}
-	// the password never travels on the command line
+	// the argument list (the password never travels on the command line); reported after the
+	// connection oracle so that a wrong outcome is the primary complaint
+	var argRes *mon.Result
 	if ob.OpenArgs != nil {
-		if r := checkArgs(c, ob.OpenArgs, ob); r != nil {
-			return *r
-		}
+		argRes = checkArgs(c, ob.OpenArgs, ob)
 		obs["arglists_checked"]++
 	}
 	if !c.expectConnect() {
@@ -475,6 +475,9 @@ func runReal(c Cell) mon.Result {
 			}
 		}
 		obs["refused_as_required"]++
+		if argRes != nil {
+			return *argRes
+		}
 		return mon.Result{Verdict: mon.Held, NonTrivial: c.Strict, Obs: obs, Tags: tags,
 			Sample: map[string]interface{}{"cell": c.label(), "open_error": openErr.Error(), "server_events": len(ob.Events)}}
 	}
@@ -537,6 +540,9 @@ func runReal(c Cell) mon.Result {
 		obs["configured_key_offered"]++
 	}
 	obs["connected_and_command_roundtrip"]++
+	if argRes != nil {
+		return *argRes
+	}
 	return mon.Result{Verdict: mon.Held, NonTrivial: c.Strict, Obs: obs, Tags: tags,
 		Sample: map[string]interface{}{"cell": c.label(), "result": res, "auth_method": okMethod, "open_args": ob.OpenArgs, "server_events": len(ob.Events)}}
 }
